@@ -109,6 +109,10 @@ func soakCase(r *rand.Rand) {
 				}
 				return reply{code: code, asField: sr.Intn(2) == 0, err: err}
 			}
+			if sr.Intn(3) == 0 {
+				feats["assign-empty"] = true
+				return reply{assign: map[string][]int32{}} // stand-by member
+			}
 			return reply{assign: map[string][]int32{"t0": {0}}}
 		case "fetch":
 			tl.add("f")
@@ -191,6 +195,12 @@ func soakCase(r *rand.Rand) {
 					continue
 				}
 				tl.add("N" + hx(c) + "g" + hx(k))
+				if st := gen.VerifState(); !st.Closed && st.Routines < 1 {
+					// still live, nothing started by us yet: the heartbeat must be running, whatever was assigned
+					mu.Lock()
+					feats["published-without-heartbeat"] = true
+					mu.Unlock()
+				}
 				nf := 1 + cr.Intn(3)
 				var fwg sync.WaitGroup
 				for i := 0; i < nf; i++ {
